@@ -1,0 +1,14 @@
+//go:build verif
+
+package lsm
+
+// Contracts for govc (see /verif/DESIGN.md). Compiled only with -tags verif.
+
+// C36: a WAL segment is reported removable only if it lies strictly below every raft
+// group's retention point: below the pointer's segment (when set) and below its
+// SegmentIndex (when set). ptrs is the snapshot taken inside the function.
+//@ func (*levelManager).canRemoveWalSegment
+//@   property C36
+//@   ensures [false-if-needed] result && lm != nil && lm.manifestMgr != nil ==> (forall gid uint64 :: has(ptrs, gid) ==> (ptrs[gid].Segment == 0 || id < ptrs[gid].Segment) && (ptrs[gid].SegmentIndex == 0 || math(id) < math(ptrs[gid].SegmentIndex)))
+//@   loop 1 invariant [seen-below] lm != nil && (forall gid uint64 :: seen(gid) ==> (ptrs[gid].Segment == 0 || id < ptrs[gid].Segment) && (ptrs[gid].SegmentIndex == 0 || math(id) < math(ptrs[gid].SegmentIndex)))
+//@   modifies nothing
